@@ -156,4 +156,15 @@ def edDecodeByte (k : EdEnc) (b : Nat) : Nat :=
     | none => if b < edAsciiSplit then b else edReplacement
   | _ => if b < edAsciiSplit then b else (lookupArms (edArms k) b).getD edReplacement
 
+/-! ### `text/extraction_cmap.rs` — the base-encoding decoders `decode_with_encoding` falls back to for a
+font without ToUnicode (`decode_winansi`, `decode_macroman`, `decode_standard`, `_ => byte as char`).
+Private functions: tied by the translator only (the run-time path is text extraction, property C11). -/
+
+def xcDecode (e : Enc) (b : Nat) : Option Nat :=
+  match e with
+  | .winAnsi => applyArms xcDecodeWinAnsiArms xcDecodeWinAnsiDflt b
+  | .macRoman => applyArms xcDecodeMacRomanArms xcDecodeMacRomanDflt b
+  | .standard => applyArms xcDecodeStandardArms xcDecodeStandardDflt b
+  | .pdfDoc => some b
+
 end OxiVerif.C25
